@@ -89,6 +89,12 @@ def handleCode : List String → Option String
     let v := parseVec e
     let d := parseDT dt
     some s!"{b01 (inCodespace h v)} {showVec (logicalErrors d x z v)} {b01 (isLogicalError d x z v)} {b01 (isSuccess d h x z v)}"
+  | ["effstack", dt, lx, lz, es] =>
+    -- get_effective_error / logical_errors on a stack of errors: one row of 2k bits per error
+    let x := parseStack lx
+    let z := parseStack lz
+    let d := parseDT dt
+    some (showStack ((parseStack es).map (logicalErrors d x z)))
   | ["dist", lx, lz] =>
     some (match distance (parseStack lx) (parseStack lz) with
       | none => "ERR empty" | some d => toString d)
